@@ -450,6 +450,40 @@ class Program:
                 return c
         return None
 
+    def module_constant(self, qual):
+        """the value expression (AST) of a module-level name bound exactly once, at module top level, to a simple
+        constant expression -- a literal, +/- a literal, float("inf"), math.inf, a tuple of those; else None"""
+        if not qual or ":" not in qual or qual.startswith("ext:"):
+            return None
+        mname, _, nm = qual.partition(":")
+        mod = self.modules.get(mname)
+        if mod is None or "." in nm:
+            return None
+        binds = []
+        for n in ast.walk(mod.tree):
+            if isinstance(n, ast.Name) and n.id == nm and isinstance(n.ctx, (ast.Store, ast.Del)):
+                binds.append(n)
+            if isinstance(n, (ast.Global, ast.Nonlocal)) and nm in n.names:
+                return None
+        st = mod.defs.get(nm)
+        if len(binds) != 1 or not isinstance(st, (ast.Assign, ast.AnnAssign)) or st not in mod.tree.body or st.value is None:
+            return None
+
+        def simple(v):
+            if isinstance(v, ast.Constant):
+                return True
+            if isinstance(v, ast.UnaryOp) and isinstance(v.op, (ast.USub, ast.UAdd)):
+                return simple(v.operand)
+            if isinstance(v, ast.Tuple):
+                return all(simple(e) for e in v.elts)
+            if isinstance(v, ast.Call) and dotted(v.func) == "float" and len(v.args) == 1 and isinstance(v.args[0], ast.Constant) and not v.keywords:
+                return True
+            if isinstance(v, ast.Attribute) and self.resolve(mod, v) in ("ext:math.inf", "ext:math.nan", "ext:math.pi", "ext:math.e"):
+                return True
+            return False
+
+        return (mod, st.value) if simple(st.value) else None
+
     def has_attr(self, cls: ClassInfo, name) -> Optional[bool]:
         """does an instance of cls have attribute ``name``? None = unknown (external base)"""
         ext = False
